@@ -127,7 +127,7 @@ func loadProgram(repo string, verifDir string) (*program, error) {
 	}
 	// every contract must name an existing function
 	for key := range p.cons.funcs {
-		if _, ok := p.funcs[key]; !ok && !strings.Contains(key, ".iface:") && !strings.Contains(key, ".functype:") {
+		if _, ok := p.funcs[key]; !ok && !strings.Contains(key, ".iface:") && !strings.Contains(key, ".functype:") && !strings.Contains(key, ".lemma:") {
 			p.cons.missing = append(p.cons.missing, key)
 		}
 	}
